@@ -17,6 +17,9 @@ expression is differentiable.
   evaluation and every Jacobian row is the Fréchet derivative of the corresponding output component, by induction over the
   tree (chain rule).  `prog_ad_val`, `prog_ad_jac` — the same for straight-line PROGRAMS `let t₀ = …; let t₁ = …; body` in
   which results are computed once and used several times (expression DAGs); `den_subst` / `ad_subst`: sharing = substitution.
+* `table1_sound`, `table2_sound`, `dom_table_agrees`, `inDom_sound`, `prog_exact` — the rules as TABLES (rule, operation, domain
+  condition as data); `prog_exact` is the property with the single hypothesis `InDom` (table membership + inequalities on the
+  numbers reaching each node), which the driver evaluates on every case (`Tree.domF`).
 * `excluded_sets`, `kinks_necessary` — what is excluded from the rule domains and why (kinks vs. domain restrictions).
 -/
 import PorepyVerif.C01.Lemmas
@@ -1132,5 +1135,137 @@ example (X : Pt 2) (hX : 0 < X 0) (hne : X 0 * X 1 ≠ X 0) (i : ℕ) :
       show 0 < max (X 0 * X 1) (X 0)
       exact lt_max_of_lt_right hX
   exact ⟨prog_ad_val demo hv X i, prog_ad_jac demo hv X hs i⟩
+
+
+/-! ## the rule tables: rule as generated, operation, domain condition -/
+
+/-- rules with a constant second operand / parameter -/
+noncomputable def table1 : List Entry :=
+  [(Gen.exp, (fun x _ => Real.exp x), .all),
+   (Gen.log, (fun x _ => Real.log x), .pos),
+   (Gen.abs, (fun x _ => |x|), .xne0),
+   (Gen.sin, (fun x _ => Real.sin x), .all),
+   (Gen.cos, (fun x _ => Real.cos x), .all),
+   (Gen.tan, (fun x _ => Real.tan x), .cosNe0),
+   (Gen.arcsin, (fun x _ => Real.arcsin x), .absLt1),
+   (Gen.arccos, (fun x _ => Real.arccos x), .absLt1),
+   (Gen.arctan, (fun x _ => Real.arctan x), .all),
+   (Gen.sinh, (fun x _ => Real.sinh x), .all),
+   (Gen.cosh, (fun x _ => Real.cosh x), .all),
+   (Gen.tanh, (fun x _ => Real.tanh x), .all),
+   (Gen.arcsinh, (fun x _ => Real.arsinh x), .all),
+   (Gen.arccosh, (fun x _ => Real.arcosh x), .gt1),
+   (Gen.arctanh, (fun x _ => Real.artanh x), .absLt1),
+   (Gen.heaviside, (fun x z => heavisideR x z), .xne0),
+   (Gen.heaviside_smooth, heavisideSmoothR, .cne0),
+   (Gen.characteristic_function, charR, .absNeC),
+   (Gen.add_S, (fun x c => x + c), .all),
+   (Gen.sub_S, (fun x c => x - c), .all),
+   (Gen.rsub_S, (fun x c => c - x), .all),
+   (Gen.mul_S, (fun x c => x * c), .all),
+   (Gen.pow_S, (fun x c => x ^ c), .powC),
+   (Gen.rpow_S, (fun x c => c ^ x), .cpos),
+   (Gen.truediv_S, (fun x c => x / c), .cne0),
+   (Gen.truediv_A, (fun x c => x / c), .cne0),
+   (Gen.rtruediv_S, (fun x c => c / x), .xne0),
+   (Gen.add_A, (fun x c => x + c), .all),
+   (Gen.radd_S, (fun x c => c + x), .all),
+   (Gen.radd_A, (fun x c => c + x), .all),
+   (Gen.sub_A, (fun x c => x - c), .all),
+   (Gen.rsub_A, (fun x c => c - x), .all),
+   (Gen.mul_A, (fun x c => x * c), .all),
+   (Gen.rmul_S, (fun x c => c * x), .all),
+   (Gen.rmul_A, (fun x c => c * x), .all),
+   (Gen.pow_A, (fun x c => x ^ c), .powC),
+   (Gen.rpow_A, (fun x c => c ^ x), .cpos),
+   (Gen.rtruediv_A, (fun x c => c / x), .xne0),
+   (Gen.neg, (fun x _ => -x), .all),
+   (Gen.maximum_AdA, (fun x c => max x c), .neC),
+   (Gen.maximum_AdS, (fun x c => max x c), .neC),
+   (Gen.maximum_AAd, (fun x c => max c x), .neC),
+   (Gen.maximum_SAd, (fun x c => max c x), .neC),
+   (Gen.l2_norm_dim1, (fun x _ => |x|), .xne0)]
+
+/-- rules combining two AdArrays -/
+noncomputable def table2 : List Entry :=
+  [(Gen.add_Ad, (fun x y => x + y), .all),
+   (Gen.mul_Ad, (fun x y => x * y), .all),
+   (Gen.pow_Ad, (fun x y => x ^ y), .pos),
+   (Gen.rpow_Ad, (fun x y => y ^ x), .cpos),
+   (Gen.truediv_Ad, (fun x y => x / y), .cne0),
+   (Gen.rtruediv_Ad, (fun x y => y / x), .xne0),
+   (Gen.radd_Ad, (fun x y => y + x), .all),
+   (Gen.sub_Ad, (fun x y => x - y), .all),
+   (Gen.rsub_Ad, (fun x y => y - x), .all),
+   (Gen.maximum_AdAd, (fun x y => max x y), .neC)]
+
+theorem table1_sound : ∀ t ∈ table1, Sound1 t.1 t.2.1 t.2.2.holdsR :=
+  (List.forall_mem_cons.2 ⟨rule_sound_exp, (List.forall_mem_cons.2 ⟨rule_sound_log, (List.forall_mem_cons.2 ⟨rule_sound_abs, (List.forall_mem_cons.2 ⟨rule_sound_sin, (List.forall_mem_cons.2 ⟨rule_sound_cos, (List.forall_mem_cons.2 ⟨rule_sound_tan, (List.forall_mem_cons.2 ⟨rule_sound_arcsin, (List.forall_mem_cons.2 ⟨rule_sound_arccos, (List.forall_mem_cons.2 ⟨rule_sound_arctan, (List.forall_mem_cons.2 ⟨rule_sound_sinh, (List.forall_mem_cons.2 ⟨rule_sound_cosh, (List.forall_mem_cons.2 ⟨rule_sound_tanh, (List.forall_mem_cons.2 ⟨rule_sound_arcsinh, (List.forall_mem_cons.2 ⟨rule_sound_arccosh, (List.forall_mem_cons.2 ⟨rule_sound_arctanh, (List.forall_mem_cons.2 ⟨rule_sound_heaviside, (List.forall_mem_cons.2 ⟨rule_sound_heaviside_smooth, (List.forall_mem_cons.2 ⟨rule_sound_characteristic_function, (List.forall_mem_cons.2 ⟨rule_sound_add_S, (List.forall_mem_cons.2 ⟨rule_sound_sub_S, (List.forall_mem_cons.2 ⟨rule_sound_rsub_S, (List.forall_mem_cons.2 ⟨rule_sound_mul_S, (List.forall_mem_cons.2 ⟨rule_sound_pow_S, (List.forall_mem_cons.2 ⟨rule_sound_rpow_S, (List.forall_mem_cons.2 ⟨rule_sound_truediv_S, (List.forall_mem_cons.2 ⟨rule_sound_truediv_A, (List.forall_mem_cons.2 ⟨rule_sound_rtruediv_S, (List.forall_mem_cons.2 ⟨rule_sound_add_A, (List.forall_mem_cons.2 ⟨rule_sound_radd_S, (List.forall_mem_cons.2 ⟨rule_sound_radd_A, (List.forall_mem_cons.2 ⟨rule_sound_sub_A, (List.forall_mem_cons.2 ⟨rule_sound_rsub_A, (List.forall_mem_cons.2 ⟨rule_sound_mul_A, (List.forall_mem_cons.2 ⟨rule_sound_rmul_S, (List.forall_mem_cons.2 ⟨rule_sound_rmul_A, (List.forall_mem_cons.2 ⟨rule_sound_pow_A, (List.forall_mem_cons.2 ⟨rule_sound_rpow_A, (List.forall_mem_cons.2 ⟨rule_sound_rtruediv_A, (List.forall_mem_cons.2 ⟨rule_sound_neg, (List.forall_mem_cons.2 ⟨rule_sound_maximum_AdA, (List.forall_mem_cons.2 ⟨rule_sound_maximum_AdS, (List.forall_mem_cons.2 ⟨rule_sound_maximum_AAd, (List.forall_mem_cons.2 ⟨rule_sound_maximum_SAd, (List.forall_mem_cons.2 ⟨rule_sound_l2_norm_dim1, (List.forall_mem_nil _)⟩)⟩)⟩)⟩)⟩)⟩)⟩)⟩)⟩)⟩)⟩)⟩)⟩)⟩)⟩)⟩)⟩)⟩)⟩)⟩)⟩)⟩)⟩)⟩)⟩)⟩)⟩)⟩)⟩)⟩)⟩)⟩)⟩)⟩)⟩)⟩)⟩)⟩)⟩)⟩)⟩)⟩)⟩)⟩)
+
+theorem table2_sound : ∀ t ∈ table2, Sound2 t.1 t.2.1 t.2.2.holdsR :=
+  (List.forall_mem_cons.2 ⟨rule_sound_add_Ad, (List.forall_mem_cons.2 ⟨rule_sound_mul_Ad, (List.forall_mem_cons.2 ⟨rule_sound_pow_Ad, (List.forall_mem_cons.2 ⟨rule_sound_rpow_Ad, (List.forall_mem_cons.2 ⟨rule_sound_truediv_Ad, (List.forall_mem_cons.2 ⟨rule_sound_rtruediv_Ad, (List.forall_mem_cons.2 ⟨rule_sound_radd_Ad, (List.forall_mem_cons.2 ⟨rule_sound_sub_Ad, (List.forall_mem_cons.2 ⟨rule_sound_rsub_Ad, (List.forall_mem_cons.2 ⟨rule_sound_maximum_AdAd, (List.forall_mem_nil _)⟩)⟩)⟩)⟩)⟩)⟩)⟩)⟩)⟩)⟩)
+
+/-- the domain conditions the driver evaluates (`domTable`, Model.lean) are the ones of the verified tables; the two rules
+    outside `Expr` (three-parameter `safe_power`, by-design inexact `regularized_heaviside`) are the last two entries -/
+theorem dom_table_agrees :
+    (table1 ++ table2).map (fun t => (t.1.name, t.2.2)) ++ [("safe_power", Dom.safePow), ("regularized_heaviside", Dom.never)]
+      = domTable := by rfl
+
+/-- the table hypotheses discharge the per-node hypotheses of `ad_val` / `ad_jac`: what is left is membership in the tables
+    (syntactic) and inequalities on the numbers that reach each node -/
+theorem inDom_sound {n : Nat} (e : Expr n) (ρ : ℕ → ℕ → ℝ) (X : Pt n)
+    (h : e.InDom table1 table2 Gen.l2_norm ρ X) : e.ValSpec ∧ e.Smooth ρ X := by
+  induction e with
+  | var idx => exact ⟨trivial, trivial⟩
+  | ref j => exact ⟨trivial, trivial⟩
+  | map1 r F c e ih =>
+    obtain ⟨he, d, hm, hd⟩ := h
+    have hs := table1_sound _ hm
+    exact ⟨⟨(ih he).1, hs.val⟩, ⟨(ih he).2, fun i => hs.deriv _ _ (hd i)⟩⟩
+  | map2 r F e₁ e₂ ih₁ ih₂ =>
+    obtain ⟨h₁, h₂, d, hm, hd⟩ := h
+    have hs := table2_sound _ hm
+    exact ⟨⟨(ih₁ h₁).1, (ih₂ h₂).1, hs.val⟩, ⟨(ih₁ h₁).2, (ih₂ h₂).2, fun i => hs.deriv _ _ (hd i)⟩⟩
+  | matmul M cols e ih => exact ih h
+  | slice idx e ih => exact ih h
+  | l2norm r dim e ih =>
+    obtain ⟨he, hr, hd⟩ := h
+    subst hr
+    refine ⟨⟨(ih he).1, (rule_sound_l2_norm dim (fun _ => 0)).1⟩, ⟨(ih he).2, fun i => ?_⟩⟩
+    exact (rule_sound_l2_norm dim _).2 (hd i)
+
+theorem letsInDom_sound {n : Nat} (X : Pt n) (ds : List (Expr n)) :
+    ∀ (k : ℕ) (ρ : ℕ → ℕ → ℝ), letsInDom table1 table2 Gen.l2_norm X ds k ρ →
+      (∀ d ∈ ds, d.ValSpec) ∧ letsSmooth X ds k ρ := by
+  induction ds with
+  | nil => intro k ρ _; exact ⟨fun _ h => absurd h (List.not_mem_nil), trivial⟩
+  | cons d ds ih =>
+    intro k ρ h
+    have hd := inDom_sound d ρ X h.1
+    have hr := ih (k + 1) _ h.2
+    refine ⟨?_, hd.2, hr.2⟩
+    intro d' hd'
+    rcases List.mem_cons.1 hd' with rfl | hd'
+    · exact hd.1
+    · exact hr.1 d' hd'
+
+/-- THE PROPERTY, with no hypothesis other than the input condition `InDom`: for every program (shared results, generated
+    rules, matrix products, slicing, l2_norm, maximum) and every point at which every rule application is inside its domain,
+    the forward-mode value of every row is the plain evaluation and its Jacobian row is the Fréchet derivative. -/
+theorem prog_exact {n : Nat} (p : Prog n) (X : Pt n) (h : p.InDom table1 table2 Gen.l2_norm X) (i : ℕ) :
+    (p.ad X i).v = p.den X i ∧ HasFDerivAt (fun Y => p.den Y i) (lin (p.ad X i).g) X := by
+  have hl := letsInDom_sound X p.lets 0 Prog.env0 h.1
+  have hb := inDom_sound p.body _ X h.2
+  have hv : p.ValSpec := ⟨hl.1, hb.1⟩
+  exact ⟨prog_ad_val p hv X i, prog_ad_jac p hv X ⟨hl.2, hb.2⟩ i⟩
+
+/-- non-vacuity: the demo program (shared maximum used twice) is inside its domain on an open set -/
+example (X : Pt 2) (hX : 0 < X 0) (hne : X 0 * X 1 ≠ X 0) : demo.InDom table1 table2 Gen.l2_norm X := by
+  refine ⟨⟨⟨⟨trivial, trivial, .all, by simp [table2], fun _ => trivial⟩, trivial, .neC, by simp [table2], fun _ => hne⟩, trivial⟩, ?_⟩
+  refine ⟨⟨⟨trivial, .pos, by simp [table1], fun _ => ?_⟩, ⟨trivial, .all, by simp [table1], fun _ => trivial⟩, .all, by simp [table2], fun _ => trivial⟩,
+    trivial, .all, by simp [table2], fun _ => trivial⟩
+  show 0 < max (X 0 * X 1) (X 0)
+  exact lt_max_of_lt_right hX
+
 
 end PorepyVerif.C01
